@@ -83,10 +83,39 @@ CONFIGS = {'block-time': lambda sb: sb.block_module('time'), 'block-os': lambda 
            'mock-sys': lambda sb: sb.mock_module('sys', {'flag': 1}, 'sys')}
 
 
+class _Console:
+    """the real console of a run with real IO: healthy, or one whose flush() fails (its reader has gone away)"""
+    def __init__(self, broken):
+        self.broken = broken
+        self.text = []
+
+    def write(self, s):
+        self.text.append(s)
+        return len(s)
+
+    def writelines(self, lines):
+        self.text.extend(lines)
+
+    def flush(self):
+        if self.broken:
+            raise BrokenPipeError(32, 'Broken pipe')
+
+
 def _do(op):
     if op[0] == 'config':
         CONFIGS[op[1]](sc.sb_cmds.get_sandbox())
         return
+    if op[0] == 'real-io':
+        from pedal.sandbox.mocked import PrintingStringIO
+        saved = PrintingStringIO._ORIGINAL_STDOUT
+        PrintingStringIO._ORIGINAL_STDOUT = _Console(op[2] == 'broken console')
+        sb = sc.sb_cmds.get_sandbox()
+        sb.tracer_style = 'none'
+        sb.threaded = False
+        try:
+            return sb.run(TERMS[op[1]], filename='answer.py', real_io=True)
+        finally:
+            PrintingStringIO._ORIGINAL_STDOUT = saved
     entry, term, tracer, threaded = op[:4]
     sb = sc.sb_cmds.get_sandbox()
     if sb.tracer_style != tracer:      # a style that stays the same keeps its tracer object, as in real use
@@ -116,6 +145,11 @@ def _ops(tier):
                     # the trace function installed by the surrounding tool may differ from call to call
                     ops.append((e, t, tr, False, 'A'))
                     ops.append((e, t, tr, False, 'B'))
+    # executions with real IO (what the student prints is echoed to the console at once), on a healthy console and on
+    # one whose flush() fails
+    for t in ('normal', 'ValueError', 'sys.exit', 'KeyboardInterrupt', 'CloseStdout'):
+        for console in ('healthy console', 'broken console'):
+            ops.append(('real-io', t, console, False))
     # instructor configuration of the sandbox between executions
     for c in CONFIGS:
         ops.append(('config', c, 'none', False))
